@@ -10,6 +10,7 @@ import (
 // c09ws: the websocket client reports a failed frame write, and a message that cannot be
 // encoded reaches the connection with no byte at all.
 func c09ws(c *core.Ctx) {
+	wsWriteErrors(c, "c09-ws")
 	C1 := xOp{kind: "C", dialOK: true}
 	for _, size := range []int{10, 2049, 6000} {
 		for _, wok := range []bool{true, false} {
